@@ -21,6 +21,7 @@ import (
 	"github.com/pkg/errors"
 
 	"seata.apache.org/seata-go/pkg/datasource/sql/undo"
+	"seata.apache.org/seata-go/pkg/util/log"
 )
 
 // ATTx
@@ -55,15 +56,18 @@ func (tx *ATTx) Rollback() error {
 func (tx *ATTx) commitOnAT() error {
 	originTx := tx.tx
 	if err := originTx.register(originTx.tranCtx); err != nil {
+		tx.rollbackTarget()
 		return err
 	}
 
 	undoLogMgr, err := undo.GetUndoLogManager(originTx.tranCtx.DBType)
 	if err != nil {
+		tx.rollbackTarget()
 		return err
 	}
 
 	if err = undoLogMgr.FlushUndoLog(originTx.tranCtx, originTx.conn.targetConn); err != nil {
+		tx.rollbackTarget()
 		if rerr := originTx.report(false); rerr != nil {
 			return errors.WithStack(rerr)
 		}
@@ -71,6 +75,7 @@ func (tx *ATTx) commitOnAT() error {
 	}
 
 	if err := originTx.commitOnLocal(); err != nil {
+		tx.rollbackTarget()
 		if rerr := originTx.report(false); rerr != nil {
 			return errors.WithStack(rerr)
 		}
@@ -79,4 +84,16 @@ func (tx *ATTx) commitOnAT() error {
 
 	originTx.report(true)
 	return nil
+}
+
+// rollbackTarget ends the local database transaction after a failed commit:
+// database/sql regards the transaction as finished once Commit has returned,
+// so the connection must not go back to the pool with it still open.
+func (tx *ATTx) rollbackTarget() {
+	if tx.tx.target == nil {
+		return
+	}
+	if err := tx.tx.target.Rollback(); err != nil {
+		log.Errorf("rollback local transaction after failed commit: %v", err)
+	}
 }
